@@ -26,11 +26,13 @@ def fmt_ids(ids):
 
 
 class Env:
-    def __init__(self, ctx, n):
+    def __init__(self, ctx, n, cell=True):
         import mdtraj as md
         self.md = md
         self.n = n
-        self.t, self.top, self.paths = tf.write_files(ctx.scratch, n, EXTS)
+        self.cell = cell
+        self.exts = [e for e in EXTS if cell or e not in ("lammpstrj", "dtr")]   # these writers refuse a cell-less trajectory
+        self.t, self.top, self.paths = tf.write_files(ctx.scratch, n, self.exts, cell=cell)
         self.full = {}
 
     def kw(self, ext):
@@ -177,17 +179,17 @@ def run(ctx):
     for m in PYX:
         ctx.drift_for(m)
     rng = ctx.rng
-    sizes = [7] if ctx.quick else [7, 10]
-    envs = {n: Env(ctx, n) for n in sizes}
+    sizes = [(7, True), (6, False)] if ctx.quick else [(7, True), (10, True), (6, False), (1, True)]
+    envs = {n: Env(ctx, n, cell) for n, cell in sizes}
     jobs = []   # (kind, ext, n, params)
-    for n in sizes:
-        for ext in EXTS:
+    for n, cell in sizes:
+        for ext in envs[n].exts:
             strides = [1, 2, 3, 5] if ctx.quick else [1, 2, 3, 4, 5, 8]
             for s in strides:
                 jobs.append(("load", ext, n, dict(stride=s, ai=None)))
             jobs.append(("load", ext, n, dict(stride=rng.choice([1, 2, 3]), ai=[0] + sorted(rng.sample(range(1, 12), 4)))))
             jobs.append(("load", ext, n, dict(stride=1, ai=sorted(rng.sample(range(1, 12), 3)))))
-            for i in ([0, n - 1, rng.randrange(n)] if ctx.quick else range(n)):
+            for i in (sorted({0, n - 1, rng.randrange(n)}) if ctx.quick else range(n)):
                 jobs.append(("frame", ext, n, dict(i=i, ai=None if rng.random() < 0.7 else [0, 2, 5])))
             combos = [(c, s, k) for c in range(0, n + 3) for s in (1, 2, 3, 4) for k in range(0, n + 1)]
             if ctx.quick:
@@ -218,18 +220,26 @@ def run(ctx):
         for j, line in zip(idx, ctx.driver.query(reqs)):
             model[j] = line
     for e in envs.values():
-        for ext in EXTS:
+        for ext in e.exts:
             e.full_load(ext)
 
     seen = {}
     for j, (kind, ext, n, p) in enumerate(jobs):
-        desc = dict(kind=kind, ext=ext, n_frames=n, **p)
+        desc = dict(kind=kind, ext=ext, n_frames=n, cell=envs[n].cell, **p)
         st, res = isolated(do_job, envs[n], kind, ext, n, p, model.get(j), timeout=90)
         if st != "ok":
             key = "%s|%s|%s|" % (ext, "iterload" if kind == "iter" else kind, st)
             seen.setdefault(key, ("%s on %s %s: %s (%s)" % (kind, ext, p, "the interpreter died" if st == "crash" else st, res), desc))
             res = dict(viols=[], broke=[], nontriv=None)
+        # trr.pyx: the skip buffer `xyz_stride` holds n_atoms_to_read atoms but read_trr writes n_atoms into it: with
+        # stride > 1 and atom_indices the heap is overrun; the manifestation (crash, wrong frames, nothing) is not deterministic
+        overflow = ext == "trr" and p.get("stride", 1) > 1 and p.get("ai")
+        if overflow and st != "ok":
+            seen.pop("%s|%s|%s|" % (ext, "iterload" if kind == "iter" else kind, st), None)
+            seen.setdefault("trr|stride+atom_indices|heap-overflow", ("%s on trr %s: %s" % (kind, p, st), desc))
         for key, what in res["viols"]:
+            if overflow:
+                key = "trr|stride+atom_indices|heap-overflow"
             seen.setdefault(key, (what, desc))
         for name, detail in res["broke"]:
             ctx.broke(name, detail)
@@ -245,7 +255,7 @@ def replay(ctx, path):
     warnings.filterwarnings("ignore")
     rp = json.load(open(path))["replay"]
     kind, ext, n = rp.pop("kind"), rp.pop("ext"), rp.pop("n_frames")
-    env = Env(ctx, n)
+    env = Env(ctx, n, rp.pop("cell", True))
     st, res = isolated(do_job, env, kind, ext, n, rp, None, timeout=90)
     print(st, res)
     return 1 if (st != "ok" or res["viols"]) else 0
